@@ -88,7 +88,7 @@ def run(ctx):
     lens = "6, 7" if ctx.quick else "6, 7, 8, 9"
     mc = tlc.run("Genes_MC", MC_CFG % lens, ctx.workdir, dump=True, coverage=True, timeout=3000)
     ctx.model(mc, "Genes_MC oracle meta-properties", vacuity=["PickLoc", "PickLayout"])
-    neg = tlc.run("Genes_MC", NEG_CFG, ctx.workdir, tag="_neg", timeout=1200)
+    neg = tlc.run("Genes_MC", NEG_CFG, ctx.workdir, tag="_neg", timeout=1200, workers=1, seed=1)  # sampled model: fixed draw
     ctx.expect_violation(neg, "ImplAgrees", "bisect-and-early-exit lookup shape misses shadowed genes (P8 on the model)")
     universe, spliced = {}, {}
     for state in tlaval.read_dump(mc.dump_path, keep=lambda text: "stage = 1" in text or "stage = 3" in text):
